@@ -13,7 +13,7 @@ import (
 func init() {
 	register(&property{
 		ID:          "C06",
-		Explanation: "Static decision of what makes matchers pure and fragmentation-insensitive: (R1) only Connection.Read and prefetch read the raw connection; matcher-reachable code touches cx.Conn only for address accessors; (R2) in matching mode Read never reaches the socket (path-evaluated scenario table); (R3) need-more propagation: in every function reachable from a ConnMatcher.Match, every call that reads from the connection (or a reader/framer built on it) and returns an error has that error tested, and every return reachable from the error edge returns an error that derives from it - a short read is never turned into a definite 'no' (reviewed exceptions: the DNS/RDP trailing-byte probes and the DNS UDP accumulation loop); (R4) the view returned by MatchingBytes() is never written, and a verdict that depends on how much is buffered answers need-more/buffer-full; (R5) matcher-reachable code stores to no Connection field and never calls Wrap.",
+		Explanation: "Static decision of what makes matchers pure and fragmentation-insensitive: (R1) only Connection.Read and prefetch read the raw connection; matcher-reachable code touches cx.Conn only for address accessors; (R2) in matching mode Read never reaches the socket (path-evaluated scenario table); (R3) need-more propagation: in every function reachable from a ConnMatcher.Match, every call that reads from the connection (or a reader/framer built on it) and returns an error has that error tested, and every return reachable from the error edge returns an error that derives from it - a short read is never turned into a definite 'no' (reviewed exceptions: the DNS/RDP trailing-byte probes and the DNS UDP accumulation loop); (R4) the view returned by MatchingBytes() is never written, and a verdict that depends on how much is buffered answers need-more/buffer-full; (R5) matcher-reachable code stores to no Connection field and never calls Wrap; (R6) the freeze/unfreeze typestate of C01; (R7) memoised state is published only after the last read; (R8) the matcher combinators hand every error - in particular need-more - up unchanged (truth tables, the need-more sentinel included); (R9) the router never acts on a verdict that is stale for the stream as it is now (bounded exploration of the route loop).",
 		NotDecided:  "Monotonicity of verdicts over growing prefixes and repeatability for each protocol (value-level); third-party parsers' own handling of short reads (http.ReadRequest, http2.Framer are trusted to return the reader's error).",
 		Run:         runC06,
 	})
